@@ -132,6 +132,21 @@ def rle_merge(seq):
     return out
 
 
+def rle_merge_runs(tags):
+    return [tuple(x) for x in rle_merge(tags)]
+
+
+def has_empty_tagged(t):
+    """Does the markup contain an empty string (it yields a zero-length attribute run)?"""
+    if t[0] == "s":
+        return len(t[2]) == 0
+    if t[0] == "t":
+        return has_empty_tagged(t[2])
+    if t[0] == "l":
+        return any(has_empty_tagged(x) for x in t[1])
+    return False
+
+
 def rle_expand(runs):
     out = []
     for a, n in runs:
@@ -464,6 +479,8 @@ class C17(core.Check):
     def __init__(self):
         super().__init__()
         self._stash = {}
+        self._sig_count = {}
+        self._unlimited = False
 
     # ================================================================= implementation
     def run_impl(self, case):
@@ -957,7 +974,37 @@ class C17(core.Check):
         return {"malformed": ints[:40]}
 
     # ================================================================= oracle (from the property text)
+    # core keeps at most 200 violation records per run and de-duplicates them by signature afterwards;
+    # so that one frequent (possibly known) class cannot crowd out another, the main loop reports each
+    # signature at most MAX_PER_SIGNATURE times (every further one is still counted); shrinking and replay
+    # always see every message.
+    MAX_PER_SIGNATURE = 6
+
     def oracle(self, case, res):
+        msgs = self.oracle_all(case, res)
+        if self._unlimited or not msgs:
+            return msgs
+        out = []
+        for m in msgs:
+            sig = self.signature(case, m)
+            n = self._sig_count.get(sig, 0)
+            self._sig_count[sig] = n + 1
+            if n < self.MAX_PER_SIGNATURE:
+                out.append(m)
+        return out
+
+    def shrink(self, case, msg):
+        self._unlimited = True
+        try:
+            return super().shrink(case, msg)
+        finally:
+            self._unlimited = False
+
+    def replay(self, path):
+        self._unlimited = True
+        return super().replay(path)
+
+    def oracle_all(self, case, res):
         k = case["kind"]
         if "err" in res:
             return []            # the property does not speak about rejected inputs; counted in the distribution
@@ -1051,7 +1098,19 @@ class C17(core.Check):
                         ebytes += b" " * max(0, s[0])
                 if bs[:len(ebytes)] != ebytes or bs[len(ebytes):].strip(b" "):
                     st["short_rows"] += 1
-                    continue       # the row does not show what the layout says: not judged here (counted)
+                    # a zero-length run among the canvas attributes makes content() stop there: the
+                    # characters behind it are not displayed at all and the row is narrower than the canvas
+                    if len(bs) < len(ebytes) and ebytes.startswith(bs):
+                        src = case["attr"] if case["kind"] == "layout" else rle_merge_runs(tags)
+                        empty_in = case["kind"] == "text" and has_empty_tagged(case["m"]) or \
+                            case["kind"] == "layout" and any(n == 0 for _, n in case["attr"]) or \
+                            any(len(s_) == 2 and s_[0] == 0 and not s_[1] for s_ in line)
+                        msgs.append("row %d is cut short after %d of %d bytes: the characters behind are not displayed (%s)"
+                                    % (y, len(bs), len(ebytes),
+                                       "zero-length attribute run of an empty tagged string or zero-width pad" if empty_in
+                                       else "no empty run in the input"))
+                        break
+                    continue       # otherwise the row does not show what the layout says: not judged here
                 exp += [(None, "fill")] * (len(bs) - len(ebytes))
                 for x, ((e, what), g) in enumerate(zip(exp, attrs)):
                     if e != "any" and e != g:
@@ -1240,6 +1299,8 @@ class C17(core.Check):
                 inc("align:" + case["align"])
         if case["kind"] in ("text", "layout") and "rows" in res and getattr(self, "_short", 0):
             inc("obs:content_row_narrower_than_canvas(zero-length attribute run)")
+        for sig, n in self._sig_count.items():
+            dist["oracle-messages:" + sig] = n
         if case["kind"] == "escape":
             inc("depth:%d" % case["spec"][2])
         if case["kind"] == "palette":
@@ -1358,7 +1419,10 @@ class C17(core.Check):
                         sc = rng.choice([0, 1, 2])
                         if used + sc > w:
                             continue
-                        line.append([sc, rng.choice([None, None, 0, rng.randrange(0, n + 1)])])
+                        offs = rng.choice([None, None, 0, rng.randrange(0, n + 1)])
+                        if sc == 0 and not offs:
+                            offs = rng.randrange(1, n + 2)      # a (0, None) pad is never produced by a layout
+                        line.append([sc, offs])
                         used += sc
                 ls.append(line)
             if malformed:
